@@ -13,21 +13,33 @@ rebound by Arpeggio at the end of the first parse).  Both the model dump and the
 position of the first parse are observed (the parser clone used by model_from_str is captured) and the
 tree is tied to the Lean mirror as well.
 
+Whitespace contexts (round V19): every fourth case hangs an ordered choice of helper rules into the top rule
+which reach ONE rule at ONE input position under different whitespace contexts (rule modifiers, eolterm
+repetitions; gen_grammar.GrammarGen.ws_modes); the rule is of every way a name can stand for an expression
+(alias of a base type / of a match rule / of an alias, simple match rule, base type, non-terminal rule).  Which
+expressions of the compiled parser model are non-terminals -- and therefore memoized by Arpeggio -- is decided by
+textX's grammar compiler (textx/lang.py); the dumped real parser model is therefore tied to the Lean mirror of the
+compiler (`Tx.compile` on the grammar AST, Drivers/PegTx.lean op compile), and a difference between the memoizing
+and the plain parser is only attributed to the known finding when the parser model is the one `Tx.compile` gives.
+
 Known finding (Arpeggio, dependency): the memo cache key ignores the whitespace
 context, so an expression reached under two whitespace modes may reuse a result
 computed under the other one.  Classifier: the disagreement disappears when the
 real parser is re-run with the cache key extended by (skipws, ws).
 """
-from harness.core import Check, use_repo
+from harness.core import Check, canon, run_driver, use_repo
 from harness import gen_grammar as G
 from harness import peg
+from harness.props.c01 import Unsupported as GramUnsupported
+from harness.props.c01 import canon_table, to_lean    # read-only reuse: gen_grammar AST -> Lean `Gram`; table up to renumbering
 from harness.txutil import dump_model, outcome
 
 CFGS = [{}, {}, {}, {"skipws": False}, {"ws": " "}, {"ws": " \t\n"}, {"autokwd": True}, {"ignore_case": True}]
 
 
 class CtxDict(dict):
-    """dict keyed by position that silently extends the key by the parser's whitespace context (what="ws") or by
+    """dict keyed by position that silently extends the key by the parser's whitespace context (what="ws": skipws, the
+    effective and the declared whitespace set, the eolterm flag) or by
     the flag that tells whether the parser is inside `_parse_comments` (what="comments")."""
 
     def __init__(self, parser, what="ws"):
@@ -38,7 +50,10 @@ class CtxDict(dict):
     def _k(self, pos):
         if self.what == "comments":
             return (pos, bool(getattr(self.parser, "in_parse_comments", False)))
-        return (pos, self.parser.skipws, self.parser._ws)
+        # the whole whitespace context: an `eolterm` repetition is a third way to switch it (the `ws` setter strips the
+        # newlines while `eolterm` is on, a rule modifier entered below restores / strips according to it)
+        p = self.parser
+        return (pos, p.skipws, p._ws, getattr(p, "_real_ws", None), bool(getattr(p, "_eolterm", False)))
 
     def __getitem__(self, pos):
         return dict.__getitem__(self, self._k(pos))
@@ -153,6 +168,77 @@ def first_load(gtext, cfg, memo, text, want_nodes):
     return {"load": lo, "parse": pa, "same": nodes == want_nodes, "hits": getattr(got[0], "cache_hits", 0) if got else 0}
 
 
+def gram_request(g):
+    """gen_grammar AST -> Lean `Gram` JSON for `Tx.compile` (None: a shape outside the modelled grammar syntax).
+    A composite Comment rule (`comment_alts`) is written out as the three rules the rendering produces."""
+    g2 = dict(g)
+    if g.get("comment_alts"):
+        a, b = g["comment_alts"]
+        g2["comment"] = None
+        g2["rules"] = list(g["rules"]) + [
+            {"name": "Comment", "params": {}, "body": {"k": "alt", "xs": [{"k": "ref", "name": "CommentA"},
+                                                                          {"k": "ref", "name": "CommentB"}]}},
+            {"name": "CommentA", "params": {}, "body": {"k": "re", "v": a}},
+            {"name": "CommentB", "params": {}, "body": {"k": "re", "v": b}}]
+    try:
+        return to_lean(g2)[0]
+    except GramUnsupported:
+        return None
+
+
+def real_table(nodes, top, comments, objs, cfg):
+    """the dumped real parser model in the canonical form of C01's compile tie (pre-order renumbering; kind, root,
+    rule name, suppression, children, ws / skipws, separator, eolterm, text of the matches, attribute of assignment
+    nodes).  With autokwd / ignore_case textX uses other matcher classes and rewrites the match texts: there the kind
+    of a match (str / re) and its text are left out (`loose`)."""
+    ns = [dict(nd) for nd in nodes]
+    for nd, o in zip(ns, objs):
+        if nd["k"] in ("str", "re"):
+            nd["text"] = o.to_match
+        if hasattr(o, "_attr_name"):
+            nd["attr"] = o._attr_name
+    return loosen(canon_table(ns, top, comments), cfg)
+
+
+def loosen(table, cfg):
+    if cfg.get("autokwd") or cfg.get("ignore_case"):
+        for nd in table["nodes"]:
+            if nd["k"] in ("str", "re"):
+                nd["k"] = "match"
+                nd["text"] = ""
+    return table
+
+
+def table_diff(rt, mt):
+    """None, or where the real parser model differs from the one `Tx.compile` gives for the grammar"""
+    if rt == mt:
+        return None
+    if len(mt["nodes"]) != len(rt["nodes"]):
+        nt = lambda t: sum(1 for nd in t["nodes"] if nd["k"] not in ("str", "re", "match", "eof"))
+        return (f"{len(rt['nodes'])} reachable nodes ({nt(rt)} non-terminals = memoized expressions) in the real parser "
+                f"model, {len(mt['nodes'])} ({nt(mt)}) in the mirror")
+    for i, (a, b) in enumerate(zip(rt["nodes"], mt["nodes"])):
+        if a != b:
+            return f"node {i} differs: real {a} mirror {b}"
+    return f"top/comments differ: real {rt['top']},{rt['comments']} mirror {mt['top']},{mt['comments']}"
+
+
+WS_STYLES = [("space", 4), ("wild", 5), ("tight", 1)]
+
+
+def ws_sentences(g, rng, n_derived=3, n_mutated=2):
+    """as gen_grammar.sentences, with more layouts that put varied whitespace (blank, tab, newline) between tokens:
+    a clash of whitespace contexts needs whitespace in front of the token at which the contexts meet"""
+    d = G.Deriver(g, rng)
+    out = []
+    for k in range(n_derived + n_mutated):
+        toks = d.tokens()
+        if k >= n_derived:
+            toks = G.mutate(toks, rng)
+        out.append(G.layout(toks, rng, G.comment_pool(g) or None, style=rng.weighted(WS_STYLES)))
+    return out
+
+
 def uniform_at(nodes, comments, skipws, ws):
     """the dumped parser model is in the class for which C19 is *proved* on the mirror (Peg.UniformAt / Peg.uniformAtB):
     no comment model, no eolterm, and every ws / skipws rule modifier restates the whitespace context (skipws, ws)
@@ -224,6 +310,30 @@ def _drop_unreachable(gtext):
     return "".join(ln + "\n" for h, ln in zip(heads, lines) if h in seen)
 
 
+def _drop_unreachable_gram(g):
+    """the grammar AST without the rules that cannot be reached from the first rule (the Comment rule is not among
+    `rules`)"""
+    rules = {r["name"]: r for r in g["rules"]}
+
+    def refs(e):
+        if isinstance(e, dict):
+            if e.get("k") == "ref":
+                yield e["name"]
+            for v in e.values():
+                yield from refs(v)
+        elif isinstance(e, list):
+            for x in e:
+                yield from refs(x)
+
+    seen, todo = set(), [g["rules"][0]["name"]]
+    while todo:
+        h = todo.pop()
+        if h not in seen and h in rules:
+            seen.add(h)
+            todo += list(refs(rules[h]["body"]))
+    return dict(g, rules=[r for r in g["rules"] if r["name"] in seen])
+
+
 def _timeout(x):
     return isinstance(x, dict) and x.get("other") == "Timeout"
 
@@ -260,21 +370,27 @@ class Prop(Check):
                 "Peg.C19_partial_agree_at", "Peg.C19_partial_accept_at", "Peg.C19_posdet_at", "Peg.C19_partial_warm_at",
                 "Peg.C19_statement_false", "Peg.C19_comment_false", "Tx.C19_load_at", "Peg.uniformAtB_sound",
                 "Peg.plain_sim_at", "Peg.memo_sim_at", "Peg.memo_rev", "Peg.memo_fin_plain", "Peg.bodyNode_ev",
-                "Peg.parseLim_ev"]
-    DRIVER = "Drivers/Peg.lean"
+                "Peg.parseLim_ev",
+                # round V19: terminals are not memoized; an alias of a base type IS the base type's match
+                "Peg.C19_match_not_memoized", "Tx.C19_alias_base_root", "Tx.C19_base_terminal"]
+    DRIVER = "Drivers/PegTx.lean"      # Drivers/Peg.lean + op compile (Tx.compile on the grammar AST)
     QUICK_CASES = 250
     CASE_TIMEOUT = 20
     THOROUGH_CASES = 6000
     RULE = ("generated grammars (common/abstract/match rules, all operators, separators, eolterm, predicates, suppression, "
             "rule modifiers, Comment rule, alternatives reaching one rule at one position through different kinds of "
-            "reference: plain / suppressed / assigned / under & and ! / optional / repeated) x metamodel ws/skipws/autokwd/"
+            "reference: plain / suppressed / assigned / under & and ! / optional / repeated; every 4th grammar: helper rules "
+            "with different whitespace contexts (noskipws / skipws / ws=.. modifiers, none, eolterm repetition) reaching one "
+            "rule at one position -- alias of a base type / match rule / alias, simple match rule, base type, non-terminal "
+            "rule, alias of one -- and texts with varied whitespace) x metamodel ws/skipws/autokwd/"
             "ignore_case options x 5 texts (3 derived, 2 mutated, random order); each text parsed with memoization on and "
             "off, both in sequence with one pair of meta-models and as the first input of a freshly compiled pair, on the "
             "real code and on the Lean mirror; non-trivial = the memo cache was hit at least once while parsing the text")
     MODELLED = ("hand-modelled: Arpeggio's interpreter incl. memo cache, comment cache, ws/eolterm setters (Peg/Arp.lean, "
                 "dependency mirrored statement by statement); tie X: parse tree / failure position of the mirror run on the "
                 "dumped real parser model vs the real parser, memoization on and off; token matching (str compare, re.match) "
-                "is an input table")
+                "is an input table; tie X2 (round V19): the dumped real parser model vs Tx.compile (mirror of textx/lang.py) of the "
+                "grammar AST, up to renumbering -- which expressions are non-terminals (memoized) is part of the model")
 
     def gen(self, rng, n, tier):
         for i in range(n):
@@ -288,13 +404,23 @@ class Prop(Check):
                 cfg = r2.choice(CFGS)
                 g = restate_modifiers(g, cfg, r2)
                 texts = r2.shuffle(G.sentences(g, r2, 3, 2))
-                yield {"grammar": G.render_grammar(g), "cfg": cfg, "texts": texts, "restating": True}
+                yield {"grammar": G.render_grammar(g), "gram": g, "cfg": cfg, "texts": texts, "restating": True}
                 continue
             gg = G.GrammarGen(r, links=False, composite_comment=True, flavours=True)
             g = gg.grammar()
+            if i % 8 in (1, 3):
+                # one rule at one position under several whitespace contexts (see GrammarGen.ws_modes); drawn from a
+                # fork, after the grammar: the other three quarters of the cases are what they were before
+                r3 = r.fork("wsmodes")
+                gg.rng = r3
+                g = gg.ws_modes(g)
+                cfg = r3.choice(CFGS)
+                texts = r3.shuffle(ws_sentences(g, r3, 3, 2))
+                yield {"grammar": G.render_grammar(g), "gram": g, "cfg": cfg, "texts": texts}
+                continue
             cfg = r.choice(CFGS)
             texts = r.shuffle(G.sentences(g, r, 3, 2))
-            yield {"grammar": G.render_grammar(g), "cfg": cfg, "texts": texts}
+            yield {"grammar": G.render_grammar(g), "gram": g, "cfg": cfg, "texts": texts}
 
     def impl(self, case):
         use_repo()
@@ -311,6 +437,7 @@ class Prop(Check):
         except peg.Unsupported as e:
             return {"unsupported": str(e)}
         res["nodes"], res["top"], res["comments"] = nodes, top, comments
+        res["table"] = real_table(nodes, top, comments, objs, case["cfg"])
         res["same_model"] = (nodes == nodes1 and top == top1 and comments == comments1)
         res["skipws"], res["ws"] = bool(p0.skipws), p0.ws
         res["uniform_at"] = uniform_at(nodes, comments, res["skipws"], res["ws"])
@@ -363,6 +490,9 @@ class Prop(Check):
             for memo in (False, True):
                 reqs.append({"input": d["text"], "toks": d["toks"], "memo": memo, "fuel": fuel})
         reqs.append({"op": "uniformAt"})
+        gram = gram_request(case["gram"]) if case.get("gram") else None
+        if gram is not None:
+            reqs.append({"op": "compile", "gram": gram, "nodes": [], "toks": []})
         return {"op": "batch", "base": base, "reqs": reqs}
 
     @staticmethod
@@ -380,7 +510,11 @@ class Prop(Check):
             return f"model rejected the request: {out}"
         if not obs["same_model"]:
             return "memoization changes the compiled parser model"
-        ua = out["outs"][-1]
+        n = len(obs["texts"])
+        ua = out["outs"][2 * n]
+        tie = self.compile_tie(case, obs, out["outs"][2 * n + 1] if len(out["outs"]) > 2 * n + 1 else None)
+        if tie:
+            return tie
         if ua != {"uniformAt": obs.get("uniform_at")}:
             return f"class of the theorem C19_at: Lean recogniser {ua} vs statement of the class {obs.get('uniform_at')}"
         if case.get("restating") and not obs.get("uniform_at"):
@@ -400,6 +534,30 @@ class Prop(Check):
                     return (f"text {d['text']!r} memo={bool(j)}, first parse of a fresh meta-model: real "
                             f"{str(f['parse'])[:300]} vs mirror {str(m)[:300]}")
         return None
+
+    _ties = {}
+
+    def compile_tie(self, case, obs, comp=None):
+        """tie X2: the real parser model is the one the mirror of textX's grammar compiler (`Tx.compile`) produces from
+        the grammar AST, up to renumbering.  None = no reference (corpus case without AST, grammar shape outside the
+        modelled syntax), "" = holds, else what differs.  `comp` = the driver's answer (asked for on demand, and cached
+        per grammar, when classify needs it for a shrunk candidate)."""
+        if not case.get("gram") or "table" not in obs:
+            return None
+        key = canon([case["gram"], case["cfg"], obs["table"]])
+        if key not in self._ties:
+            if comp is None:
+                gram = gram_request(case["gram"])
+                comp = run_driver(self.DRIVER, [{"op": "compile", "gram": gram}])[0] if gram is not None else {"error": "unsupported"}
+            if "ok" in comp:
+                m = comp["ok"]
+                d = table_diff(obs["table"], loosen(canon_table(m["nodes"], m["top"], m["comments"]), case["cfg"]))
+                self._ties[key] = "" if d is None else "compiled parser model vs Tx.compile of the grammar: " + d
+            elif comp.get("error") == "unsupported":
+                self._ties[key] = None
+            else:
+                self._ties[key] = f"grammar accepted by textX but Tx.compile says {str(comp)[:200]}"
+        return self._ties[key]
 
     def oracle(self, case, obs):
         if "texts" not in obs:
@@ -424,6 +582,11 @@ class Prop(Check):
         if obs.get("uniform_at"):
             # proved on the mirror (C19_at): within this class memoization is transparent; a whitespace-context clash
             # needs a modifier that changes the context.  Nothing excuses a difference here.
+            return None
+        if self.compile_tie(case, obs):
+            # both findings are statements about Arpeggio run on the parser model which the grammar compiles to; which
+            # expressions are non-terminals (and hence memoized at all) is textX's decision.  A parser model other than
+            # the one the mirror of the grammar compiler gives is not what the findings describe: nothing is excused.
             return None
         bad = [d for d in obs["texts"] if _differs(d)]
         # the known finding does not depend on the history of the meta-model: the first parse of a fresh pair shows
@@ -474,6 +637,11 @@ class Prop(Check):
         for i in range(len(case["texts"])):
             if len(case["texts"]) > 1:
                 yield dict(case, texts=[case["texts"][i]])
+        if case.get("gram"):
+            g2 = _drop_unreachable_gram(case["gram"])
+            if len(g2["rules"]) < len(case["gram"]["rules"]):
+                yield dict(case, gram=g2, grammar=G.render_grammar(g2))
+            return
         g = _drop_unreachable(case["grammar"])
         if g != case["grammar"]:
             yield dict(case, grammar=g)
